@@ -5,6 +5,7 @@ package gohlslib
 // Scenario lists of the properties decided by engine E1.
 
 import (
+	"fmt"
 	"github.com/bluenviron/gohlslib/v2/internal/zzverif/vh"
 )
 
@@ -244,6 +245,20 @@ func e1Scens(prop, tier string) []e1Scen {
 	llp := mcfg("ll", false, 7, "h264")
 	llp.ParamDelta = "pps"
 	out = append(out, e1Scen{Prop: prop, Cfg: llp, Alpha: alphaParams(0), Depth: depth - 1, Mode: "tree", Name: "param-delta-tree"})
+	if prop == "C05" {
+		// what is listed stays fetchable after a Write that failed in the middle of a rotation (the next segment's file
+		// could not be created) and after the writer has carried on; Low-Latency is left out: its playlist cannot be
+		// served at all in that state (known finding of C18)
+		for _, variant := range []string{"mpegts", "fmp4"} {
+			for _, tracks := range [][]string{{"h264"}, {"h264", "aac44"}} {
+				cfg := mcfg(variant, true, 3, tracks...)
+				word := []sym{{T: 0, D: "q", K: "R"}, {T: 0, D: "q", K: "n"}, {T: 0, D: "q", K: "n"}, {T: 0, D: "q", K: "n"}}
+				for fa := 1; fa <= 6; fa++ {
+					out = append(out, e1Scen{Prop: prop, Cfg: cfg, Alpha: word, Mode: "fault", Len: 4 * (fa + 3), FaultAt: fa, Name: fmt.Sprintf("listed-after-rotation-fault-%d", fa)})
+				}
+			}
+		}
+	}
 	// audio-only MPEG-TS starts a new segment only after 100 writes: periodic words long enough for four segments
 	tsa := mcfg("mpegts", false, 3, "aac44")
 	per := e1Scen{Prop: prop, Cfg: tsa, Alpha: alphaAudio(tsa), Mode: "periodic", Period: 2, Len: 430, Name: "ts-audio-only-periodic"}
